@@ -11,6 +11,21 @@ Open Scope Z_scope.
 
 (* ---- vector OLE ---- *)
 
+(* Note on the modulus: in the model every reduction is [gomod x p = x mod |p|]
+   over Z (math/big semantics); there is NO case split on the size of p, of
+   x or of any intermediate value (no machine-word path), and the theorems
+   below hold uniformly for every 0 < p (<= 2^256 where bytes32 is involved).
+   An implementation that treats word-sized moduli specially is therefore
+   tied to these theorems only through the correspondence and the
+   implementation-side oracle: harness c20 runs, in every tier, a modulus
+   sweep with bit lengths 31, 32, 33, 63, 64 (2^64-59, 2^64-2^32+1, 2^63+9,
+   2^63, 2^64-1, random 64-bit odd numbers and primes), 65, 127, 128, 129,
+   191, 192, 193, 255, 256, small and random bit lengths, with x, y over
+   {0, 1, 2, p-1, p-2, (p-1)/2, 2^(k-1), random}; each of these Mul calls is
+   a correspondence case (the model recomputes u from the recorded labels,
+   x, y, p and must equal the u-vector bytes on the wire and Receiver.Mul's
+   result) and the share relation is evaluated on every element. *)
+
 (* Every modulus p > 0, every vector length (induction on the list), every
    mask vector rs the sender keeps, every integer x_i (sender's input) and
    y_i (receiver's input, reduced mod p by the sender as the code does): the
